@@ -26,6 +26,7 @@ Fixpoint args_ok (o : op) : Prop :=
   | OReplaceCh _ b _ _ | OWithReplCh _ b _ _ => b <> 0
   | OSwap _ l => nulfree l /\ lenN l < LIM
   | OUnflatten bytes => lenN bytes < LIM
+  | OUnflattenW arena _ _ => lenN arena < LIM
   | OArgInt z | OShiftInt z => (- 9223372036854775808 <= z < 18446744073709551616)%Z      (* any 64-bit integer, signed or unsigned *)
   | OAssign o' => args_ok o'
   | _ => True
@@ -368,6 +369,18 @@ Proof.
       eexists _, _. splits; trivial; try exact Logic.I.
     + assert (NF : ~ nulfree bytes) by (intros X; apply cstr_fixpoint_unterminated in X; congruence).
       destruct (U2 NF) as (x & Ex & I' & A'). rewrite Ex in H. inversion H; subst.
+      eexists _, _. splits; trivial; try exact Logic.I.
+  - (* Unflatten through a window that has been read from *)
+    set (r0 := run_pre arena win ps) in *. set (rem := win_remaining arena win r0) in *.
+    assert (Lr : lenN rem < LIM).
+    { unfold rem, win_remaining. rewrite lenN_dropN, lenN_takeN. lia. }
+    destruct (unflatten_spec s rem I Lr) as (U1 & U2).
+    unfold read_cstr_w in *. fold rem in H |- *.
+    destruct (list_eqb (cstr rem) rem) eqn:E.
+    + apply cstr_fixpoint_unterminated in E. rewrite (U1 E) in H. inversion H; subst. cbn [snd].
+      eexists _, _. splits; trivial; try exact Logic.I.
+    + assert (NF : ~ nulfree rem) by (intros X; apply cstr_fixpoint_unterminated in X; congruence).
+      destruct (U2 NF) as (x & Ex & I' & A'). rewrite Ex in H. inversion H; subst. cbn [snd].
       eexists _, _. splits; trivial; try exact Logic.I.
   - (* Replace(Hashtable) *)
     pose proof (replace_multi_spec s pairs max I ltac:(lia)) as R.
